@@ -71,6 +71,24 @@ def generate(rng, tier):
         else:
             op = dict(scen.cmd("flatten", "./" + rootname, "../relout2"), cwd="@M")
         sc["ops"].append(op)
+    if rng.random() < 0.12:
+        # second names for files of a history: a hard-link snapshot of the whole tree (cp -al, rsync --link-dest) or of
+        # single history files, kept outside the root or as a document inside it.  Whatever a later create rewrites, the
+        # other names of the old inodes are outside its scope and must keep their bytes
+        creates = [i for i, o in enumerate(sc["ops"]) if scen.is_cmd(o) and o["argv"][0] == "create"]
+        at = (rng.choice(creates) + 1) if creates else len(sc["ops"])
+        k = rng.randrange(4)
+        if k == 0:
+            ln = {"op": "link_tree", "src": "@R", "dst": "@M/snapshot.0", "fault": "hardlink_snapshot"}
+        elif k == 1:
+            ln = {"op": "link", "src": "@R/ascmhl/ascmhl_chain.xml", "dst": "@M/backup/ascmhl/ascmhl_chain.xml", "fault": "hardlink_chain"}
+        elif k == 2:
+            ln = {"op": "link", "src": "@R/ascmhl/ascmhl_chain.xml", "dst": "@R/chain_of_custody.xml", "fault": "hardlink_chain"}
+        else:
+            ln = {"op": "link_tree", "src": "@R/ascmhl", "dst": "@S/asc_copy", "fault": "hardlink_snapshot"}
+        fm = ["-h", rng.choice(["md5", "xxh64", "c4"])]
+        sc["ops"][at:at] = [ln, {"op": "advance", "us": 2_000_000}, scen.cmd("create", "@R", *fm),
+                            {"op": "advance", "us": 2_000_000}, scen.cmd("create", "@R", *fm, *(["-dr"] if rng.random() < 0.3 else []))]
     if rng.random() < 0.15 and len(sc["ops"]) > 2:
         # an interrupted create somewhere in the middle leaves temporary files behind; later read-only commands
         # must leave them alone as well
@@ -177,7 +195,12 @@ def monitor(ctx, st):
             b = os.path.basename(rel)
             pre, post = st.pre[rel], st.post[rel]
             if os.path.basename(os.path.dirname(rel)) == "ascmhl" and b == "ascmhl_chain.xml":
-                continue
+                # a chain file is rewritten only together with a new generation of that very history
+                if any(os.path.dirname(a) == os.path.dirname(rel) and a.endswith(".mhl") for a in added):
+                    continue
+                ctx.violate({"kind": "create-altered-existing-entry", "cmd": name, "cause": "chain-without-new-generation"},
+                            f"{desc}: {rel} changed but its history received no new generation")
+                return
             if pre[0] == "d" and post[0] == "d" and _only_mtime(pre, post):
                 if b == "ascmhl":
                     continue  # the history folder received a new manifest
